@@ -35,6 +35,11 @@ def run(tier, seed, replay=None):
             base = G.run_case(C.Rng(r.next()), tracing=0, max_cycles=0, fill=0, trunc="1",
                               stdout_writes=False, read_unwritten=True, debug=(i % 3 == 0))
             f = base.split(" ")
+            if i % 4 == 1 and i % 3 != 0:
+                # a file that is SHORTER than its length word announces (truncated binary): the words it does not cover read as
+                # zero like all memory outside the image - whatever the loader's buffers held
+                old = int.from_bytes(bytes.fromhex(f[6][:8]), "little")
+                f[6] = (old + r.choice([1, 2, 7, 64, 900])).to_bytes(4, "little").hex() + f[6][8:]
             g = []
             for maxc in (0, 1 + r.below(6), 20 + r.below(200)):
                 for tracing in (0, 1):
@@ -46,11 +51,18 @@ def run(tier, seed, replay=None):
                         lines.append(l)
             groups.append(g)
     real = C.drive_parallel(h, lines, workdir=True)
+    # the same cases once more with another allocator fill (heap contents are host memory too: buffers the loader allocates)
+    env2 = dict(os.environ)
+    env2["ASAN_OPTIONS"] = "detect_leaks=0:malloc_fill_byte=0:max_malloc_fill_size=67108864"
+    real2 = C.drive_parallel(h, lines, workdir=True, env=env2)
     model_in = [l for l in lines if l.split(" ")[2] == "0"]
     model = dict(zip(model_in, C.drive_parallel(drv, model_in)))
     obs = dict(zip(lines, real))
 
     viol = []
+    for l, o1, o2 in zip(lines, real, real2):
+        if o1 != o2:
+            viol.append({"kind": "host-memory dependence (allocator fill 0xbe vs 0x00)", "inputs": [l, l], "observations": [o1, o2]})
     corr = []
     classes = Counter()
     nontriv = set()
